@@ -121,8 +121,17 @@ class Env(object):
             if self.cli_params is None:
                 from pcbasic import config as cfg
                 os.environ['HOME'] = self.home
+                # pool workers may have a closed stdin; config inspects the standard streams
+                for name, mode in (('stdin', 'r'), ('stdout', 'w')):
+                    try:
+                        getattr(sys, name).isatty()
+                    except (ValueError, AttributeError):
+                        setattr(sys, name, open(os.devnull, mode))
                 os.chdir(self.mount)
                 settings = cfg.Settings(self.home, ['--lpt1=FILE:' + os.path.join(self.base, 'lpt1.txt')])
+                # the stream redirects depend on the checker's own stdio (closed in pool workers);
+                # they are replaced by None below anyway
+                settings._get_redirects = lambda: {'output_streams': [], 'input_streams': []}
                 self.cli_params = dict(settings.session_params)
                 self.cli_params['output_streams'] = None
                 self.cli_params['input_streams'] = None
